@@ -345,8 +345,49 @@ func (v *authorizer) LoadPolicies(authorizerPolicies []byte) error {
 
 func (v *authorizer) loadPoliciesV2(pbPolicies *pb.AuthorizerPolicies) error {
 	policySymbolTable := datalog.SymbolTable(pbPolicies.Symbols)
-	v.symbols = v.baseSymbols.Clone()
-	v.symbols.Extend(&policySymbolTable)
+	symbols := v.baseSymbols.Clone()
+	symbols.Extend(&policySymbolTable)
+
+	// the same rule as for the blocks of a token: everything the serialized policies refer
+	// to must be declared by the default table or by their own table. Nothing of the
+	// authorizer is changed before this is known.
+	content := &Block{facts: &datalog.FactSet{}}
+	for _, pbFact := range pbPolicies.Facts {
+		fact, err := protoFactToTokenFactV2(pbFact)
+		if err != nil {
+			return fmt.Errorf("verifier: load policies v1: failed to convert datalog fact: %w", err)
+		}
+		*content.facts = append(*content.facts, *fact)
+	}
+	for _, pbRule := range pbPolicies.Rules {
+		rule, err := protoRuleToTokenRuleV2(pbRule)
+		if err != nil {
+			return fmt.Errorf("verifier: load policies v1: failed to convert datalog rule: %w", err)
+		}
+		content.rules = append(content.rules, *rule)
+	}
+	for _, pbCheck := range pbPolicies.Checks {
+		check, err := protoCheckToTokenCheckV2(pbCheck)
+		if err != nil {
+			return fmt.Errorf("verifier: load policies v1: failed to convert datalog check: %w", err)
+		}
+		content.checks = append(content.checks, *check)
+	}
+	for _, pbPolicy := range pbPolicies.Policies {
+		queries := datalog.Check{}
+		for _, pbRule := range pbPolicy.Queries {
+			rule, err := protoRuleToTokenRuleV2(pbRule)
+			if err != nil {
+				return fmt.Errorf("verifier: load policies v1: failed to convert datalog policy rule: %w", err)
+			}
+			queries.Queries = append(queries.Queries, *rule)
+		}
+		content.checks = append(content.checks, queries)
+	}
+	if err := checkDeclaredSymbols(content, symbols); err != nil {
+		return fmt.Errorf("verifier: load policies v1: %w", err)
+	}
+	v.symbols = symbols
 
 	for _, pbFact := range pbPolicies.Facts {
 		fact, err := protoFactToTokenFactV2(pbFact)
